@@ -104,6 +104,10 @@ func execSendWith(t *testing.T, sc *SendScenario, hook func(e *NetEnv)) *SendRun
 
 func execSendHook(t *testing.T, sc *SendScenario, logger mlog.Logger, hook func(e *NetEnv)) *SendRun {
 	run := &SendRun{Sc: sc}
+	if logger == nil && sc.Client.Debug {
+		run.Logger = &CaptureLogger{}
+		logger = run.Logger
+	}
 	pol := sc.Policy
 	if pol.Kind == "" {
 		pol.Kind = "random"
